@@ -1295,6 +1295,54 @@ func c16RunFile(ctx *Ctx, path string, f c16File) {
 			Detail: fmt.Sprintf("after Load (error: %v) the object has MaxSize %d; AddEntry(\"q\", 1) left %d entries, last query %s: the search was not recorded",
 				lerr, sh.MaxSize, n, last), Witness: cs})
 	}
+	if lerr == nil {
+		// bound and views on whatever the file held (entries without timestamps, more entries than the maximum, ...)
+		if sh.MaxSize > 0 && len(sh.Entries) > sh.MaxSize {
+			ctx.R.Violate(vlib.Violation{Property: "C16", Clause: "bound", Path: addPath,
+				Detail: fmt.Sprintf("after Load and one recorded search the history holds %d entries, its maximum is %d", len(sh.Entries), sh.MaxSize), Witness: cs})
+		}
+		ctx.R.Guard("C16", "views-after-load", cs, func() {
+			n := len(sh.Entries)
+			distinct := map[string]int{}
+			for _, e := range sh.Entries {
+				distinct[e.Query]++
+			}
+			top := sh.GetTopQueries(n + 10)
+			sum, rows := 0, map[string]bool{}
+			for _, t := range top {
+				sum += t.Count
+				if rows[t.Query] || distinct[t.Query] != t.Count {
+					ctx.R.Violate(vlib.Violation{Property: "C16", Clause: "top", Path: "Load+GetTopQueries",
+						Detail: fmt.Sprintf("top view reports %s x%d, the entries hold it %d time(s) (row repeated: %v)", c16Show(t.Query), t.Count, distinct[t.Query], rows[t.Query]), Witness: cs})
+					return
+				}
+				rows[t.Query] = true
+			}
+			if sum != n {
+				ctx.R.Violate(vlib.Violation{Property: "C16", Clause: "top", Path: "Load+GetTopQueries",
+					Detail: fmt.Sprintf("frequencies of the top view sum to %d, the history has %d entries (%d distinct queries, %d rows)", sum, n, len(distinct), len(top)), Witness: cs})
+			}
+			st := sh.GetStats()
+			if st.TotalSearches != n || st.UniqueQueries != len(distinct) {
+				ctx.R.Violate(vlib.Violation{Property: "C16", Clause: "stats", Path: "Load+GetStats",
+					Detail: fmt.Sprintf("statistics report %d searches / %d unique, the entries are %d / %d", st.TotalSearches, st.UniqueQueries, n, len(distinct)), Witness: cs})
+			}
+			rec := sh.GetRecentQueries(n + 10)
+			seenR := map[string]bool{}
+			for _, q := range rec {
+				if seenR[q] {
+					ctx.R.Violate(vlib.Violation{Property: "C16", Clause: "recent", Path: "Load+GetRecentQueries", Detail: "recent view repeats " + c16Show(q), Witness: cs})
+					return
+				}
+				seenR[q] = true
+			}
+			if len(rec) != len(distinct) || (n > 0 && (len(rec) == 0 || rec[0] != sh.Entries[n-1].Query)) {
+				ctx.R.Violate(vlib.Violation{Property: "C16", Clause: "recent", Path: "Load+GetRecentQueries",
+					Detail: fmt.Sprintf("recent view has %d queries for %d distinct ones, or does not start with the newest entry", len(rec), len(distinct)), Witness: cs})
+			}
+			ctx.R.Path("files-views-checked", 1)
+		})
+	}
 	var serr error
 	if !ctx.R.Guard("C16", "Save", cs, func() { serr = sh.Save() }) {
 		return
